@@ -143,9 +143,12 @@ def make_run(cfg):
                 proxy._pyroSeq = cfg["seq0"]
                 for i, kind in enumerate(history):
                     token = "t%d" % i
-                    inb = proxy._pyroConnection.sock.bytes_read if proxy._pyroConnection else None
+                    sock_before = proxy._pyroConnection.sock if proxy._pyroConnection else None
+                    inb = sock_before.bytes_read if sock_before is not None else None
                     r = one_call(proxy, kind, token)
-                    read_after = proxy._pyroConnection.sock.bytes_read if proxy._pyroConnection else None
+                    same_sock = proxy._pyroConnection is not None and proxy._pyroConnection.sock is sock_before
+                    # (a retried call reconnects: the handshake answer read on the new connection is not a reply to the oneway call)
+                    read_after = proxy._pyroConnection.sock.bytes_read if same_sock else None
                     results.append((kind, token, r, inb, read_after))
                 state["active"] = False
                 finals = []
